@@ -80,6 +80,8 @@ def load_module(name: str) -> Module | None:
         return None
     if name == "verif_specs":
         return Module(name, Path(__file__).resolve().parent.parent / "contracts" / "specs.py")
+    if name == "verif_harness":
+        return Module(name, Path(__file__).resolve().parent.parent / "contracts" / "harness.py")
     if name == "calendar":
         import calendar
 
